@@ -184,9 +184,31 @@ static void p3_run(uint64_t idx, vh_rng_t * r) {
     vh_distinct(vh_hash(s.b, s.n, 4));
 }
 
+/* error-queue geometry at the limits of its int16_t size: ring indices near 32767, overflow after the ring has rotated */
+static uint64_t p4_count(int thorough) { return thorough ? 32 : 8; }
+static void p4_run(uint64_t idx, vh_rng_t * r) {
+    static const int sizes[] = { 32767, 16385, 30000, 16384, 20000, 32766, 255, 256 };
+    int C = sizes[idx % 8]; long rot, i; vh_ctx_t * v; scpi_error_t e; char t[16];
+    vh_case_desc("error queue of %d entries: rotate, fill, overflow, query, clear", C);
+    vh_watchdog(60);
+    c01_gen_sigs(vh_rand(r));
+    v = vh_ctx_new(c01_cmds, 128, C, 64); v->sigs = c01_sigs; v->nsigs = C01_NSIG; v->log_enabled = 0;
+    rot = C > 16384 ? (32769 - C) + (long) vh_below(r, 40) : (long) vh_below(r, (uint32_t) C);
+    if (rot > C) rot = C;
+    for (i = 0; i < rot; i++) SCPI_ErrorPush(v->ctx, (int16_t) (-100 - (i & 63)));
+    for (i = 0; i < rot; i++) { SCPI_ErrorPop(v->ctx, &e); }
+    for (i = 0; i < C + 3; i++) { if ((i & 15) == 0) { int n = snprintf(t, sizeof t, "x%ld", i); SCPI_ErrorPushEx(v->ctx, (int16_t) (i & 0x3fff), t, (size_t) n); } else SCPI_ErrorPush(v->ctx, (int16_t) -(i & 0x1ff)); }
+    vh_input(v, "SYST:ERR?;SYST:ERR:COUN?;FOO\n", 29);
+    vh_input(v, "SYST:ERR?\n*CLS\nSYST:ERR?\n", 26);
+    vh_eval((uint64_t) (2 * rot + C + 5));
+    vh_count("queue_boundary.cases", 1);
+    vh_ctx_free(v);
+}
+
 int main(int argc, char ** argv) {
-    static const vh_phase_t phases[] = { { "generated and mutated streams", p0_count, p0_run }, { "truncation at every byte", p1_count, p1_run }, { "direct line parse", p2_count, p2_run }, { "long histories", p3_count, p3_run } };
+    static const vh_phase_t phases[] = { { "generated and mutated streams", p0_count, p0_run }, { "truncation at every byte", p1_count, p1_run }, { "direct line parse", p2_count, p2_run }, { "long histories", p3_count, p3_run }, { "error queue at its size limits", p4_count, p4_run } };
     vh_require("mode.0"); vh_require("mode.1"); vh_require("mode.2"); vh_require("mode.3"); vh_require("geometry.stream_longer_than_buffer");
     vh_require("geometry.stream_ends_at_physical_end_of_buffer"); vh_require("streams.mutated"); vh_require("truncation.streams"); vh_require("history.sequences");
-    return vh_main(argc, argv, "C01", phases, 4);
+    vh_require("queue_boundary.cases");
+    return vh_main(argc, argv, "C01", phases, 5);
 }
